@@ -1,0 +1,10 @@
+//go:build verif
+
+package eth
+
+import lru "github.com/hashicorp/golang-lru"
+
+// VerifResetCaches drops the public-key-to-address cache (verification hook).
+func VerifResetCaches() {
+	addrCache, _ = lru.New(10240)
+}
